@@ -180,7 +180,11 @@ def gen_C03(rng, tier):
             else:
                 pr = nested_raiser(rng, d)
             p = p[:i] + [('pred', pr)] + p[i:]
-        out.append(Q({'doc': d, 'cmds': [('iter', 'doc', qcase.fix_path(p), False, rng.random() < 0.2), ('drain', 0, 60, 1)]}))
+        cmds = [('iter', 'doc', qcase.fix_path(p), False, rng.random() < 0.2), ('drain', 0, 60, 1)]
+        if rng.random() < 0.3:
+            # a filter that raises ends get / get_match in TraversingError as well, default or not (C03-m11)
+            cmds += [('get', 'doc', qcase.fix_path(p), ('const', 'dflt'), False), ('get_match', 'doc', qcase.fix_path(p), False, False)]
+        out.append(Q({'doc': d, 'cmds': cmds}))
     return out
 
 
@@ -641,6 +645,27 @@ def nontrivial_parent(case, o):
     return sum(1 for s in p if s[0] == 'parent') >= 2 and n_results(o) >= 1
 
 
+def percent_keys(rng, cases):
+    """in one case out of five the key 'zz' is spelled with percent signs everywhere (document, paths, values):
+    exception texts are built from keys and values, and must render whatever they contain (C16-m11)"""
+    def ren(x, new):
+        if isinstance(x, dict):
+            return {(new if k == 'zz' else k): ren(v, new) for k, v in x.items()}
+        if isinstance(x, list):
+            return [ren(v, new) for v in x]
+        if isinstance(x, tuple):
+            return tuple(ren(v, new) for v in x)
+        if x == 'zz' and isinstance(x, str):
+            return new
+        return x
+    out = []
+    for c in cases:
+        if rng.random() < 0.2:
+            c = {'family': c['family'], 'case': ren(c['case'], rng.choice(['100%', '%s', 'a%d%%', '%(k)s']))}
+        out.append(c)
+    return out
+
+
 def gen_C16q(rng, tier):
     """malformed stream for the read-only functions: paths drawn independently of the document"""
     out = []
@@ -939,7 +964,7 @@ REGISTRY = {
     'C14': dict(level='proof', gen=gen_mut(('match', 'match', 'match', 'set', 'pop')), oracle=lambda c, o: leaks_C14(o), nontrivial=nontrivial_m(('assign', 'del', 'mpop')),
                 rule="histories of m.data = v / del m.data / m.pop(default) on held matches obtained directly, through "
                      "wildcards, recursion, filters; interleaved with sets and pops", obligations=[]),
-    'C16': dict(level='proof', gen=lambda rng, tier: gen_C16q(rng, tier) + gen_mut(('set', 'cascade', 'pop'))(rng, 'quick' if tier == 'quick' else 'thorough')[:sized(tier, 800, 8000)]
+    'C16': dict(level='proof', gen=lambda rng, tier: percent_keys(rng, gen_C16q(rng, tier) + gen_mut(('set', 'cascade', 'pop'))(rng, 'quick' if tier == 'quick' else 'thorough')[:sized(tier, 800, 8000)])
                 + [{'family': 'b', 'case': bcase.gen_bcase(rng)} for _ in range(sized(tier, 300, 3000))],
                 oracle=lambda c, o: leaks(o), nontrivial=lambda c, o: len(scan(o, 'raise')) >= 2,
                 rule="malformed stream: paths drawn independently of the document over the full grammar x every API function x "
